@@ -33,6 +33,12 @@ def base_flags(release=True):
     return fl
 
 
+# per-TU deviations from the common flags (reason given)
+TU_FLAGS = {
+    # uses the digit separator 50'000'000, which g++ accepts in C++11 mode (the build) and clang does not
+    "test/unit/misc/bit_reversal.cpp": ["-std=gnu++14"],
+}
+
 _tree_hash = None
 
 
@@ -86,6 +92,9 @@ def _one(args):
     tmp = out + ".tmp%d" % os.getpid()
     cmd = [TOOL, "--files=" + files_re, "--names=" + names_re, "--max-inst=%d" % max_inst, "-o", tmp, tu, "--"] + base_flags(release)
     cmd.append("-I" + os.path.dirname(tu))
+    for suffix, extra in TU_FLAGS.items():
+        if tu.endswith(suffix):
+            cmd = [c for c in cmd if not c.startswith("-std=")] + extra
     t = time.time()
     p = subprocess.run(cmd, stdout=subprocess.PIPE, stderr=subprocess.PIPE, universal_newlines=True)
     dt = time.time() - t
